@@ -1127,7 +1127,7 @@ class Laplace(DiffOperator):
 
             a = Mul(*coeffs)
 
-            if len(vectors) == 2:
+            if len(vectors) == 2 and all(v.is_commutative for v in vectors):
                 f,g = vectors
                 b = f*cls(g) + g*cls(f) + 2 * Dot(Grad(f), Grad(g))
 
